@@ -4,6 +4,7 @@ import TrackVerif.LT.CodecLemmas
 import TrackVerif.LT.XmlLemmas
 import TrackVerif.LT.TreeLemmas
 import TrackVerif.LT.SpecFacts
+import TrackVerif.LT.FixedLemmas
 import TrackVerif.Generated.LT
 /-
   C13 — Encoded LapTimer files are well-formed XML in LapTimer's field syntax.
@@ -153,6 +154,47 @@ theorem lapdate_field_syntax (sec : Int) (ns : Nat) (h1 : -31536000 ≤ sec) (h2
   have lit : Spec.schema.lit "LapDate.String" 0 = some "02-Jan-06,15:04:05" := by decide +kernel
   refine ⟨Time.toUpperAscii (Time.formatToks (Time.civilOf sec ns) Time.lapToks), ?_, Spec.lapdate_syntax _ hv⟩
   simp only [dateString, lit, Option.bind_some, Time.format, Time.lap_layout, hy, if_false, hasc, if_true]
+
+/-- every finite fixed-decimal field (`Float` = six decimals, `Float0dp`, `Float1dp`, `Float2dp`)
+    is written `[-]digits[.p digits]` with exactly its number of decimals, whatever the value:
+    the `%.pf` model (whose output is compared with Go's on every generated value) never
+    produces an exponent, a missing digit or a bare point -/
+theorem fixed_decimal_field_syntax (b : UInt64) (f : Dec.Parts) (hf : Dec.classify b = .finite f) :
+    (∃ t, customText Spec.schema "Float" (.flt b) = .ok t ∧ Spec.isFixed 6 t = true) ∧
+    (∃ t, customText Spec.schema "Float0dp" (.flt b) = .ok t ∧ Spec.isFixed 0 t = true) ∧
+    (∃ t, customText Spec.schema "Float1dp" (.flt b) = .ok t ∧ Spec.isFixed 1 t = true) ∧
+    (∃ t, customText Spec.schema "Float2dp" (.flt b) = .ok t ∧ Spec.isFixed 2 t = true) := by
+  have l6 : Spec.schema.lit "Float.MarshalXML" 0 = some "%f" := by decide +kernel
+  have l0 : Spec.schema.lit "Float0dp.MarshalXML" 0 = some "%.0f" := by decide +kernel
+  have l1 : Spec.schema.lit "Float1dp.MarshalXML" 0 = some "%.01f" := by decide +kernel
+  have l2 : Spec.schema.lit "Float2dp.MarshalXML" 0 = some "%.02f" := by decide +kernel
+  have f6 : Fmt.parseFormat "%f".toList = some [Fmt.Item.f 6] := by decide
+  have f0 : Fmt.parseFormat "%.0f".toList = some [Fmt.Item.f 0] := by decide
+  have f1 : Fmt.parseFormat "%.01f".toList = some [Fmt.Item.f 1] := by decide
+  have f2 : Fmt.parseFormat "%.02f".toList = some [Fmt.Item.f 2] := by decide
+  refine ⟨⟨_, ?_, Spec.formatFixed_syntax b 6 f hf⟩, ⟨_, ?_, Spec.formatFixed_syntax b 0 f hf⟩,
+    ⟨_, ?_, Spec.formatFixed_syntax b 1 f hf⟩, ⟨_, ?_, Spec.formatFixed_syntax b 2 f hf⟩⟩
+  · simp only [customText, l6, ofOpt, Option.bind_some, Fmt.sprintf, f6, Fmt.sprintfItems, Option.map_some, List.append_nil]
+  · simp only [customText, l0, ofOpt, Option.bind_some, Fmt.sprintf, f0, Fmt.sprintfItems, Option.map_some, List.append_nil]
+  · simp only [customText, l1, ofOpt, Option.bind_some, Fmt.sprintf, f1, Fmt.sprintfItems, Option.map_some, List.append_nil]
+  · simp only [customText, l2, ofOpt, Option.bind_some, Fmt.sprintf, f2, Fmt.sprintfItems, Option.map_some, List.append_nil]
+
+/-- every finite coordinate is written `lat,lon` (acceleration blocks) or `lat,lon,alt` (fixes)
+    with eight decimals for the angles and one for the altitude -/
+theorem coordinate_field_syntax (la lo al : UInt64) (fa fo fl : Dec.Parts) (ha : Dec.classify la = .finite fa)
+    (ho : Dec.classify lo = .finite fo) (hl : Dec.classify al = .finite fl) :
+    (∃ t, customText Spec.schema "Coordinate" (.struct [.flt la, .flt lo]) = .ok t ∧ Spec.isCoord2 t = true) ∧
+    (∃ t, customText Spec.schema "AltitudeCoordinate" (.struct [.struct [.flt la, .flt lo], .flt al]) = .ok t ∧
+      Spec.isCoord3 t = true) := by
+  have l2 : Spec.schema.lit "Coordinate.MarshalXML" 0 = some "%.08f,%.08f" := by decide +kernel
+  have l3 : Spec.schema.lit "AltitudeCoordinate.MarshalXML" 0 = some "%.08f,%.08f,%.1f" := by decide +kernel
+  have f2 : Fmt.parseFormat "%.08f,%.08f".toList = some [Fmt.Item.f 8, .lit ',', .f 8] := by decide
+  have f3 : Fmt.parseFormat "%.08f,%.08f,%.1f".toList = some [Fmt.Item.f 8, .lit ',', .f 8, .lit ',', .f 1] := by decide
+  refine ⟨⟨_, ?_, Spec.coord2_syntax la lo fa fo ha ho⟩, ⟨_, ?_, Spec.coord3_syntax la lo al fa fo fl ha ho hl⟩⟩
+  · simp only [customText, l2, ofOpt, Option.bind_some, Fmt.sprintf, f2, Fmt.sprintfItems, Option.map_some,
+      List.append_nil, List.cons_append, List.nil_append]
+  · simp only [customText, l3, ofOpt, Option.bind_some, Fmt.sprintf, f3, Fmt.sprintfItems, Option.map_some,
+      List.append_nil, List.cons_append, List.nil_append]
 
 /-- non-vacuity / regression witness: the text that exposed `&quote;` -/
 example : unescape (replaceAll (pairsOf Spec.schema.replacer) (goEscape ['a', '"', 'b'])) = some ['a', '"', 'b'] := by
